@@ -530,6 +530,9 @@ def __CheckMat(mat: FeArray.FeArrayALike) -> None:
 def Transpose(mat: FeArray.FeArrayALike) -> FeArray.FeArrayALike:
     """Computes transpose(mat)"""
     assert isinstance(mat, np.ndarray) and mat.ndim >= 2
+    if isinstance(mat, FeArray) and mat._ndim < 2:
+        # the (Ne, nPg) axes are not tensor axes: a scalar or vector field is its own transpose (as with .T)
+        return mat
     res: FeArray.FeArrayALike = np.swapaxes(mat, -1, -2)
 
     if isinstance(mat, FeArray):
